@@ -378,3 +378,29 @@ def fresh_headers_check(ch: Any, rule: str, functions: Optional[List[FuncInfo]] 
                 n += 1
                 ch.bad(rule, fn, x, 'a per-message header is written into %s, which is shared by every call' % why, witness=wit, line=x.lineno)
     return n
+
+
+TEARDOWN_CALLBACKS = ('shutdown', 'on_client_connection_close', 'on_upstream_connection_close')
+
+
+def who_may_close_check(ch: Any, rule: str) -> int:
+    """A socket owned by a work is closed only from the work's teardown callbacks.  The executor takes a work's descriptors
+    out of the selector in one place, Threadless._cleanup, which then calls shutdown(); a socket closed while the work lives on
+    keeps its number registered, and the next accept()/connect() in the process is handed that very number."""
+    prog = ch.prog
+    n = 0
+    for fn in prog.all_functions('proxy'):
+        mn = fn.module.name
+        if not (mn.startswith('proxy.http.') or mn.startswith('proxy.core.base')) or mn.startswith(('proxy.http.client', 'proxy.http.websocket.client')) or fn.cls is None:
+            continue
+        for c in walk_no_nested(fn.node):
+            if isinstance(c, ast.Call) and isinstance(c.func, ast.Attribute) and c.func.attr == 'close' and not c.args:
+                chain = attr_chain(c.func.value) or ''
+                last = chain.split('.')[-1]
+                if not chain.startswith('self.') or last not in ('upstream', 'work', 'client', 'connection'):
+                    continue
+                n += 1
+                ch.check(fn.name in TEARDOWN_CALLBACKS, rule, fn, c, 'closed from a teardown callback',
+                         '%s closes %s outside the teardown callbacks %s: the work stays alive, its closed descriptor stays registered with the executor\'s selector (only _cleanup unregisters), '
+                         'and the next connection that is given the same descriptor number is never polled' % (fn.qualname, chain, list(TEARDOWN_CALLBACKS)))
+    return n
